@@ -99,7 +99,7 @@ class C15(Prop):
         size = t.choice([20_000, 50_000, 120_000, 300_000]) if t.draw(12) else 1_048_576
         early = t.choice([b"\r", b"\n"])
         off = t.choice([0, 0, 1, 7, 100])
-        shape = t.weighted([(3, "none"), (3, "other"), (1, "dashes"), (1, "same-late")])
+        shape = t.weighted([(3, "none"), (3, "other"), (1, "dashes"), (1, "same-late"), (2, "token")])
         other = b"\n" if early == b"\r" else b"\r"
         if shape == "none":
             run = b"x" * size
@@ -108,9 +108,15 @@ class C15(Prop):
             run = (line * (size // len(line) + 1))[:size]
         elif shape == "dashes":
             run = (b"-" * size)
+        elif shape == "token":   # '--boundary' in the middle of a line is ordinary data: a delimiter needs a line break before it
+            line = b"w" * t.choice([60, 500]) + other
+            run = (line * (size // len(line) + 1))[:size]
         else:  # the same kind of break again much later: only the last line may be held back
             run = b"z" * (size // 2) + early + b"z" * (size - size // 2)
         content = mpm.scrub(b"a" * off + early + run, boundary)
+        if shape == "token":
+            tok = b"q--" + boundary.encode("latin-1") + t.choice([b"q", b"--q", b" q"])
+            content = content[:off + 1] + b"pp" + tok + content[off + 1:]
         kind = t.weighted([(3, "file"), (2, "field")])
         part = {"kind": kind, "name": "big", "content": content, "extra": None}
         if kind == "file":
@@ -303,12 +309,14 @@ class C15(Prop):
             return orig_write(self_, data)
 
         outcome = None
+        got_items = None
         try:
             try:
                 if surf == "parse_stream":
                     from baize.multipart_helper import parse_stream
                     res = parse_stream(chunks(), form["boundary"].encode("latin-1"), "utf8", file_factory=SyncSink, **kw)
                     outcome = ("ok", len(res))
+                    got_items = [(k, v if isinstance(v, str) else ("file", v.filename, dict(v.headers), bytes(v.data))) for k, v in res]
                 elif surf == "parse_async_stream":
                     from baize.multipart_helper import parse_async_stream
 
@@ -317,6 +325,7 @@ class C15(Prop):
 
                     res, _ = run_sim(scenario, ctx.sched, ctx, vcap=1e6, step_cap=2_000_000)
                     outcome = ("ok", len(res))
+                    got_items = [(k, v if isinstance(v, str) else ("file", v.filename, dict(v.headers), bytes(v.data))) for k, v in res]
                 else:
                     UploadFile.write = counting_write
                     ct = mpm.content_type_header(form)
@@ -380,6 +389,8 @@ class C15(Prop):
         desc = "%s part, %d bytes, early %r then %s; chunk %d, boundary %d chars, slack %d" % (
             [p for p in form["parts"] if p["name"] == "big"][0]["kind"], len([p for p in form["parts"] if p["name"] == "big"][0]["content"]),
             plan["early"], plan["shape"], c, len(form["boundary"]), slack)
+        if got_items is not None and got_items != mpm.expected_items(form):
+            ctx.violate("C15|%s|wrong-result-for-hostile-part|%s" % (surf, plan["shape"]), "decoded parts differ from the encoded ones; " + desc)
         if limit is None:
             if outcome[0] != "ok":
                 ctx.violate("C15|%s|rejected-without-limit|%s" % (surf, outcome[1]), desc)
